@@ -667,22 +667,46 @@ impl<'a> MetaStoreUpdate<'a> {
             .host
             .clone();
 
+        // The host of the surviving half of the chunk.
+        // Avoid it if possible or the whole chunk will be in the same host.
+        let partner_host = self
+            .store
+            .clusters
+            .values()
+            .flat_map(|cluster| cluster.chunks.iter())
+            .find_map(|chunk| {
+                if chunk.proxy_addresses[0] == failed_proxy_address {
+                    Some(chunk.hosts[1].clone())
+                } else if chunk.proxy_addresses[1] == failed_proxy_address {
+                    Some(chunk.hosts[0].clone())
+                } else {
+                    None
+                }
+            });
+
         let link_count_table = link_table
             .get(&failed_proxy_host)
             .expect("consume_new_proxy: cannot find failed proxy");
-        let peer_host = link_count_table
-            .iter()
-            .filter(|(peer_host, _)| free_host_proxies.contains_key(*peer_host))
-            .min_by(|(host1, count1), (host2, count2)| {
-                Self::second_host_cmp(
-                    host1.as_str(),
-                    **count1,
-                    host2.as_str(),
-                    **count2,
-                    &free_host_proxies,
-                )
-            })
-            .map(|(peer_host, _)| peer_host)
+        let select_peer_host = |exclude_partner_host: bool| {
+            link_count_table
+                .iter()
+                .filter(|(peer_host, _)| free_host_proxies.contains_key(*peer_host))
+                .filter(|(peer_host, _)| {
+                    !exclude_partner_host || Some(*peer_host) != partner_host.as_ref()
+                })
+                .min_by(|(host1, count1), (host2, count2)| {
+                    Self::second_host_cmp(
+                        host1.as_str(),
+                        **count1,
+                        host2.as_str(),
+                        **count2,
+                        &free_host_proxies,
+                    )
+                })
+                .map(|(peer_host, _)| peer_host)
+        };
+        let peer_host = select_peer_host(true)
+            .or_else(|| select_peer_host(false))
             .ok_or(MetaStoreError::NoAvailableResource)?;
 
         let peer_proxy = MetaStoreQuery::new(self.store)
